@@ -203,6 +203,10 @@ def main():
     exit_code = 0
     out_lines = []
     for fk, ls in known_hits.items():
+        if C.KNOWN_OWNER.get(fk, prop) != prop:
+            # a listed finding of another property seen through a shared family: that property's check reports it
+            notes.append(f"listed finding of {C.KNOWN_OWNER[fk]} re-observed ({fk}, {len(ls)} scenario(s)); reported by its own check")
+            continue
         out_lines.append(f"KNOWN-FINDING: property={prop} {fk}: {known_open[fk]} ({len(ls)} scenario(s), e.g. {ls[0][:160]})")
     shown = 0
     first_violation_path = None
